@@ -16,7 +16,7 @@ import struct
 
 from .. import linear
 from ..model import unparse, walk_body_shallow
-from .util import const_value, call_name, call_recv, calls_in, need, node_assign_value, node_writes_attr, norm, where
+from .util import const_value, reaching_defs, unchanged_between, call_name, call_recv, calls_in, need, node_assign_value, node_writes_attr, norm, where
 
 TECHNIQUE = "dominance of the CRC check, interval analysis of reader cursors, consumption check of count loops, " \
             "who-may-call struct.unpack"
@@ -103,20 +103,54 @@ def run(ctx):
     r.check(bool(m) and int(m.group(2)) == crc_size and m.group(1) == dm.params[1] and first[-1] in "IL" and norm(ru[0].args[2]) == "0",
             "%s#region" % dm.qname, "decoder does not checksum data[%d:] against an unsigned 32-bit field at offset 0 (%s)" % (crc_size, ctext),
             where(dm, t.stmt), "every valid message fails the check, or corrupted bytes outside the region pass")
-    for st in [x for x in ast.walk(em.node) if isinstance(x, ast.If) and "magic" in norm(x.test)]:
-        crcs = [x for x in st.body if isinstance(x, ast.Assign) and "crc32(" in norm(x.value)]
-        pre = [x for x in st.body if isinstance(x, ast.Assign) and isinstance(x.value, ast.BinOp) and isinstance(x.value.left, ast.Call) and
-               call_name(x.value.left) == "pack" and crcs and norm(x.value.left.args[-1]) == unparse(crcs[0].targets[0])]
-        ok = len(crcs) == 1 and len(pre) == 1
-        if ok:
-            region = re.search(r"crc32\((\w+)\)", norm(crcs[0].value))
-            f2 = pre[0].value.left.args[0].value if isinstance(pre[0].value.left.args[0], ast.Constant) else ""
-            ok = bool(region) and norm(pre[0].value.right) == region.group(1) and struct.calcsize(f2) == crc_size and f2[-1] in "IL" and \
-                "& 4294967295" in norm(crcs[0].value) and st.body.index(pre[0]) > st.body.index(crcs[0]) and \
-                not any(isinstance(x, (ast.Assign, ast.AugAssign)) and unparse(getattr(x, "target", None) or x.targets[0]) == region.group(1)
-                        for x in st.body[st.body.index(crcs[0]) + 1: st.body.index(pre[0])])
-        r.check(ok, "%s#region[%s]" % (em.qname, norm(st.test)), "encoder does not prepend crc32 of exactly the bytes that follow it", where(em, st),
-                "brokers reject every message / decoder and encoder disagree")
+    ce = ctx.cfg(em)
+    fe = ctx.facts(em)
+    cands = []  # (node id, value expr) of every value that can be returned
+    for n in ce.nodes:
+        if n.kind == "stmt" and isinstance(n.stmt, ast.Return) and n.stmt.value is not None:
+            v = n.stmt.value
+            if isinstance(v, ast.Name):
+                for d in reaching_defs(ce, n.id, v.id):
+                    dn = ce.nodes[d]
+                    val = dn.stmt.value if isinstance(dn.stmt, (ast.Assign, ast.AnnAssign)) else None
+                    if isinstance(dn.stmt, ast.AugAssign):
+                        val = None
+                    cands.append((d, val, unchanged_between(ce, d, n.id, v.id)))
+            else:
+                cands.append((n.id, v, True))
+
+    def crc_ok(nid, val, stable):
+        if not stable or not (isinstance(val, ast.BinOp) and isinstance(val.op, ast.Add)):
+            return "returned value is not `pack(crc) + body`"
+        left, right = val.left, val.right
+        if not (isinstance(left, ast.Call) and call_name(left) == "pack" and len(left.args) == 2 and isinstance(right, ast.Name)):
+            return "returned value is not `pack(crc) + body`"
+        f2 = const_value(prog, em, left.args[0])
+        if not (isinstance(f2, str) and f2[:1] in ">!" and struct.calcsize(f2) == crc_size and f2[-1] in "IL"):
+            return "checksum field is not a big-endian unsigned 32-bit integer"
+        cexpr = left.args[1]
+        cdefs = [(nid, cexpr)] if not isinstance(cexpr, ast.Name) else [
+            (d, ce.nodes[d].stmt.value if isinstance(ce.nodes[d].stmt, ast.Assign) else None) for d in reaching_defs(ce, nid, cexpr.id)]
+        if not cdefs:
+            return "checksum value has no definition"
+        for d, cv in cdefs:
+            crcs = [x for x in ast.walk(cv) if isinstance(x, ast.Call) and call_name(x) == "crc32"] if cv is not None else []
+            masked = cv is not None and isinstance(cv, ast.BinOp) and isinstance(cv.op, ast.BitAnd) and 0xFFFFFFFF in (
+                const_value(prog, em, cv.left), const_value(prog, em, cv.right))
+            if len(crcs) != 1 or not masked or len(crcs[0].args) != 1 or norm(crcs[0].args[0]) != right.id:
+                return "checksum is not crc32(%s) & 0xffffffff of the bytes that follow it" % right.id
+            if d != nid and not unchanged_between(ce, d, nid, right.id):
+                return "`%s` is modified between the checksum computation and its use" % right.id
+            if isinstance(cexpr, ast.Name) and d != nid and not unchanged_between(ce, d, nid, cexpr.id):
+                return "checksum variable is modified before use"
+        return None
+
+    for mag in (0, 1):
+        feas = [(nid, val, st) for nid, val, st in cands if ("message.magic == %d" % mag, False) not in fe[nid]]
+        probs = [p for p in (crc_ok(*c) for c in feas) if p]
+        r.check(bool(feas) and not probs, "%s#region[message.magic == %d]" % (em.qname, mag),
+                "encoder does not prepend crc32 of exactly the bytes that follow it: %s" % ("; ".join(sorted(set(probs))) or "no returned value for this format"),
+                where(em, ce.nodes[feas[0][0]].stmt if feas else em.node), "brokers reject every message / decoder and encoder disagree")
 
     # ---- R3 truncation policy
     r = ctx.rule("R3", "underflow inside a set: too-small signal iff nothing was yielded, else stop; nothing else is swallowed", 3, "B")
@@ -127,11 +161,23 @@ def run(ctx):
             "the set iterator handles %s" % [norm(h.stmt.type) if h.stmt.type else "everything" for h in hs], where(it, it.node),
             "checksum or protocol errors are swallowed: corrupted tail silently dropped")
     rs = [n for n in ci.nodes if n.kind == "stmt" and isinstance(n.stmt, ast.Raise) and "ConsumerFetchSizeTooSmall" in norm(n.stmt)]
+    # boolean flags of the iterator: locals that are only ever assigned True / False
+    assigns = {}
+    for x in walk_body_shallow(it.body):
+        if isinstance(x, ast.Assign) and len(x.targets) == 1 and isinstance(x.targets[0], ast.Name):
+            assigns.setdefault(x.targets[0].id, []).append(x.value)
+    flags = [k for k, vs in assigns.items() if all(isinstance(v, ast.Constant) and isinstance(v.value, bool) for v in vs)]
+
+    def falsy(f, v):
+        return (v, False) in f or (v + " is False", True) in f or (v + " is True", False) in f or ("not " + v, True) in f
+
+    def truthy(f, v):
+        return (v, True) in f or (v + " is False", False) in f or (v + " is True", True) in f or ("not " + v, False) in f
+
     flagv = None
-    for tt, pol in (fi[rs[0].id] if rs else []):
-        mm = re.match(r"^(\w+) is False$", tt)
-        if mm and pol:
-            flagv = mm.group(1)
+    for v in flags:
+        if rs and falsy(fi[rs[0].id], v):
+            flagv = v
     ok = bool(rs) and flagv is not None
     if ok:
         ys = [n for n in ci.nodes if any(isinstance(x, ast.Yield) for x in n.walk())]
@@ -141,7 +187,7 @@ def run(ctx):
             any(y.id in [tt for tt, lab in ci.succ[s.id]] for y in ys) for s in sets)
         arm = ci.reach([hs[0].id])
         rets = [ci.nodes[i] for i in arm if ci.nodes[i].kind == "stmt" and isinstance(ci.nodes[i].stmt, ast.Return)]
-        ok = ok and bool(rets) and all(("%s is False" % flagv, False) in fi[x.id] for x in rets)
+        ok = ok and bool(rets) and all(truthy(fi[x.id], flagv) for x in rets)
     r.check(ok, "%s#too-small-iff-nothing-yielded" % it.qname, "truncation is not reported as fetch-size-too-small exactly when no message was complete",
             where(it, it.node), "consumer never grows its buffer (stalls) or drops complete messages")
     hs2 = [n for n in cf.nodes if n.kind == "except"]
